@@ -3,8 +3,8 @@ import rpc_common as rc
 
 ID = "C06"
 LEVEL = "proof"
-COQ_TARGETS = ["Props/Properties_C06.vo"] + rc.COQ_COMMON
-PROPS_FILES = ["Props/Properties_C06.v"]
+COQ_TARGETS = ["Props/Properties_C06.vo", "Props/Properties_C06_order.vo"] + rc.COQ_COMMON
+PROPS_FILES = ["Props/Properties_C06.v", "Props/Properties_C06_order.v"]
 RUNS = [rc.run("rpc", "s,v,x", salt=6)]
 DESIGN_REF = "DESIGN.md section 6, C06"
 post = rc.make_post(ID, "rpc")
@@ -27,9 +27,20 @@ def violates(run, case, impl, model):
     return False
 
 
-LEVEL_TEXT = ("Proof of the id / exactly-once half of the property for the machine of rpc.Conn (coq/Rpc/Rpc.v), at history level; NOT "
-              "proved: delivery_order (T2: order, pipelining across resolution, embargo -- differential run only) and, as a "
-              "separate theorem, no_sender_leak (see LEVEL_NOTE). Proved for ALL histories of the machine: for every answer id the "
+LEVEL_TEXT = ("Proof of the id / exactly-once half of the property for the machine of rpc.Conn (coq/Rpc/Rpc.v), at history level; "
+              "delivery_order (T2) is proved PER HANDLER for all states of the machine (Properties_C06_order.v), not yet as one "
+              "trace theorem (_partial, see LEVEL_NOTE): every incoming Call is, in its own handler, delivered as the next and only "
+              "delivery (importedCap target: C06_delivery_order_direct; promisedAnswer whose answer has results: "
+              "C06_delivery_order_pipelined_returned), or appended at the END of the answer queue when its answer has no results "
+              "yet -- never delivered ahead (C06_delivery_order_pipelined_pending), or never delivered "
+              "(C06_delivery_order_incoming: the three cases are exhaustive, so a Call that is not queued cannot be overtaken); the "
+              "drain of the queue delivers a sublist of the drained list in list order as consecutive deliveries, and the drained "
+              "list is a sublist of the queue (C06_delivery_order_drain_partial, C06_drained_list_in_queue_order); a local call is "
+              "written as exactly one Call to its import / promised answer in its own handler, or delivered directly, or -- handle "
+              "embargoed -- appended at the end of the held calls with nothing written or delivered (C06_delivery_order_outgoing, "
+              "_outgoing_pipe, _unhold); the Disembargo for embargo e delivers exactly the calls held behind e, oldest first, as "
+              "the next deliveries, and leaves other embargoes alone (C06_delivery_order_embargo); non-vacuity: "
+              "C06_delivery_order_reached. no_sender_leak still has no separate theorem (see LEVEL_NOTE). Also proved for ALL histories of the machine: for every answer id the "
               "Returns in the outbox never exceed the Bootstrap/Call messages accepted with it, and while the connection is up "
               "they are equal except for the at most one answer that still owes its Return (C06_one_return); the step in which a "
               "local server returns sends a Return of the matching KIND (results / exception) with that answer's id "
@@ -47,7 +58,12 @@ LEVEL_TEXT = ("Proof of the id / exactly-once half of the property for the machi
               "inside a handler, fault histories with the wire oracle REUSE), and knowingly false for histories in which the "
               "peer answers a question whose Call is still being built (not late_free: C06_late_return_history, known finding "
               "'heldret'; no protocol-conforming peer can do that). Found and repaired: F14, F23, F27.")
-LEVEL_NOTE = ("Gaps, plainly: (1) delivery_order [T2] has no theorem. (2) no_sender_leak [T1] has no theorem of its own: the machine has "
+LEVEL_NOTE = ("Gaps, plainly: (1) delivery_order [T2] is proved handler by handler (all states, cfg_fixed; no env_ok / late_free premise is "
+              "needed) but NOT composed into one theorem over histories: missing are (a) the invariant that no other handler "
+              "permutes the answer queue (every handler only removes entries or appends one at the end) and that app_return's "
+              "deliveries are exactly its drain's, (b) that no handler other than Disembargo / shutdown lets a held (embargoed) call "
+              "through, (c) the identification of a target with the local capability it denotes across id reuse. The "
+              "differential run compares the order seen by every local server at every step, window histories included. (2) no_sender_leak [T1] has no theorem of its own: the machine has "
               "no sender-lock component; the only place where the as-found code kept the lock is modelled by a hand-placed Stuck "
               "(Rpc.v, handle_call, fx14), excluded for all histories by C06_answers_progress / C08_handlers_total and refuted on one "
               "history (C06_F14_refuted); that the real code's API exits hold no lock is C09_api_exits_hold_nothing. (3) Result content "
